@@ -335,6 +335,9 @@ func BuildConstraints(sel *Selection, params map[string][]string) error {
 	if n, found, err := findIntParam(params, "fc.max-node-count"); err != nil {
 		return err
 	} else if found {
+		if n < 0 {
+			return fmt.Errorf("%w. fc.max-node-count must not be negative: %d", fc.BadRequestError, n)
+		}
 		maxNode.Max = n
 	}
 	constraints.AddConstraint("fc.max-node-count", 10, 60, maxNode)
